@@ -248,6 +248,9 @@ DEEP_DEPTHS = [2048, 4096, 5000]          # far below the parser.stack-depth kno
 DEEP_OPEN = ["a{", "a x{", 'a "s" {', "a 'q'+\"r\"{", "a{c;", "a\n{\n", "pattern \"\\d\" {", "é\t{ // c\n"]
 
 
+DEEP_OPEN_NODQ = ["a{", "a x{", "a 'q' {", "a{c;", "a\n{\n", "é\t{ // c\n"]   # the extracted reader needs ~1 ms per double-quoted token
+
+
 def deep_texts(depths, opens=None):
     """balanced texts nested d deep (with / without arguments, strings, siblings, line breaks at every level) and unbalanced ones"""
     out = []
